@@ -26,6 +26,7 @@ pub mod registry;
 
 pub mod c01_history;
 pub mod c02_queries;
+pub mod c03_dijkstra;
 pub mod c04_bfs;
 pub mod c06_dfs;
 pub mod c18_distance_matrix;
